@@ -261,6 +261,17 @@ impl Summary {
     }
 }
 
+/// Crash guard: record the input that is about to be evaluated. A stack overflow or an abort is not
+/// a catchable panic; when the process dies, `./check` finds the last recorded input in
+/// `<out>/current_case.json` and reports it as the failing input.
+pub fn crash_guard(out: &Path, what: &str, replay: &Value) {
+    let v = json!({"what": what, "replay": replay});
+    let _ = std::fs::write(out.join("current_case.json"), serde_json::to_string(&v).unwrap_or_default());
+}
+pub fn crash_guard_clear(out: &Path) {
+    let _ = std::fs::remove_file(out.join("current_case.json"));
+}
+
 /// Run `f`, turning a panic into `Err(message)`.
 pub fn catch<T, F: FnOnce() -> T + std::panic::UnwindSafe>(f: F) -> Result<T, String> {
     let prev = std::panic::take_hook();
